@@ -142,6 +142,8 @@ class Sess:
         fl += sorted(n for n in self.notes if n.startswith('coordinated-') or n == 'forged-extension')
         if 'forged-for-order-two-key' in self.notes:
             fl = ['order-two-off-curve-key-forgery']
+        if 'valid-signature-with-large-x' in self.notes:
+            fl = ['valid-signature-with-large-x'] + fl
         if 'forged-with-identity-ephemeral' in self.notes:
             fl = ['identity-ephemeral-forgery'] + [f for f in fl if not f.startswith('forge:')]
         return fl
@@ -625,7 +627,7 @@ def hopts(rng):
 SCHEMES.update({
     'ecdsa': Spec('C05', 4, dict(pk='ec', r='bn', s='bn', msg='bytes'), o_ecdsa, weight=14,
                   opts=lambda rng: dict(hash=rng.below(2), dup=rng.below(2), cls=1 if rng.chance(0.3) else 0),
-                  extra_faults=[('forge', 'v_forgeinf'), ('forge', 'v_forgeord2')]),
+                  extra_faults=[('forge', 'v_forgeinf'), ('forge', 'v_forgeord2'), ('forge', 'v_forgelargex')]),
     # x-only Schnorr: (e, n - s) under -Q is itself a valid triple
     'ecss': Spec('C05', 4, dict(pk='ec', e='bn', s='bn', msg='bytes'), o_ecss, extra_faults=[('forge', 'v_forgeinf')]),
     'rsasig': Spec('C05', 3, dict(sig='bytes', msg='bytes'), o_rsasig, rsa=True, opts=hopts,
